@@ -1,5 +1,6 @@
 import Proofs.Pareto
 import Proofs.ParetoRanked
+import Proofs.ParetoLoop
 
 /-!
 # C11 — Non-dominated set and Pareto front are exact
@@ -23,6 +24,18 @@ exact Pareto-optimal selection. -/
 theorem C11_nds (pts : List Vec) (order : List Nat) (h : OrderOK pts.length order) :
     NdsSpec pts (ndsIdx pts order) :=
   ndsIdx_spec pts order h.1 h.2
+
+/-- **C11 (the literal loop).**  The `while idx < len(costs)` loop transcribed with its index
+arithmetic (`mask[idx] = True`, `costs = costs[mask]`, `idx = sum(mask[:idx]) + 1`) computes
+exactly the `sweep` the other theorems are about; `len(costs)` iterations always suffice. -/
+theorem C11_loop_refines (costs : List Row) :
+    loopIdx costs.length costs 0 = sweep wdRow [] costs := by
+  simpa using loopIdx_eq_sweep costs.length [] costs (Nat.le_refl _)
+
+/-- **C11 (index form, literal loop).** -/
+theorem C11_nds_literal (pts : List Vec) (order : List Nat) (h : OrderOK pts.length order) :
+    NdsSpec pts ((loopIdx (permuteBy pts order).length (permuteBy pts order) 0).map (·.1)) := by
+  rw [C11_loop_refines]; exact C11_nds pts order h
 
 /-- **C11 (mask form agrees with index form).** -/
 theorem C11_mask (pts : List Vec) (order : List Nat) :
